@@ -8,7 +8,7 @@ from mir import fmt
 STATE_EVENTS_SEND = ('NEXT_RECV', 'Q.push_back', 'PUSH_SEND')
 
 
-def zero_arm(body, evs):
+def zero_arm_old(body, evs):
     """for poll bodies only the Zero arm is a channel operation; other arms are F rules"""
     if fam.body_kind(body)[0] != 'future':
         return True
@@ -539,7 +539,7 @@ def s9(ctx):
                     ctx.oblige(1)
                     rk = fam.success_kind(fam.final_ret(p, evs))
                     shape = fam.final_ret(p, evs)
-                    okret = rk == 'refused' or (shape[0] == 'Ok' and shape[1] is not None and shape[1][0] == 'agg' and shape[1][2] == 'None')
+                    okret = rk in ('refused', 'none')
                     if not okret:
                         ctx.violate(b.key, p, 'failed try-lock must return Ok(false)/Ok(None), returns %s' % rk)
                     bad = [e for e in evs if e.name in ('RD', 'WR', 'NEXT_RECV', 'NEXT_SEND', 'PUSH_SEND', 'PUSH_RECV', 'SIGSEND', 'SIGRECV', 'LOCK') or e.name.startswith('Q.') or e.name.startswith('WL.')]
@@ -609,3 +609,10 @@ def s10(ctx):
         for e in evs:
             if e.name in ('CANCEL_RECV', 'EXISTS_RECV', 'PUSH_RECV', 'NEXT_SEND', 'SIGRECV'):
                 ctx.violate(b.key, p, 'send-side body uses receive-side helper %s' % e.name, at=e.at)
+
+
+def zero_arm(body, evs):
+    """for poll bodies only paths through the Zero arm are channel operations (other arms: F rules)"""
+    if fam.body_kind(body)[0] != 'future':
+        return True
+    return any(e.name == 'BR' and e.data['label'] == 'fstate' and e.data['outcome'] == 'Zero' for e in evs)
